@@ -14,6 +14,43 @@ def main(tier):
         ev["tlc"].append(dict(module="CompFailSafe", cfg=cfg, generated=r.generated, distinct=r.distinct, violation=r.violation))
         if r.violation:
             tlc_counterexample_violation(v, r, "CompFailSafe", cfg)
+    # binding of that model to the code: the per-iteration decoder events (hook H3) of the real decompressor, reading real
+    # brotli streams through short-reading sources with varying buffers, are validated by TLC (TraceCompFailSafe)
+    import os, json as _json
+    wdc = workdir("c05-compfs")
+    for prof, lens in (("s20", [0, 1, 47, 48, 49, 96, 200, 500]), ("prod", [0, 1, 4095, 4096, 4097, 70000, 4194304 + 5])):
+        cj = []
+        for i, L in enumerate(lens):
+            for ent, lvl in (("low", 5), ("high", 1), ("low", 11 if prof == "s20" or L < 100000 else 3)):
+                for sched in ([1], [2, 1], [4096, 1], [1000000]):
+                    if prof == "prod" and L > 100000 and sched in ([1], [2, 1]) and tier == "quick":
+                        continue
+                    for bufs in ([1], [7, 1], [4096], [3, 0, 2]):
+                        if prof == "prod" and L > 100000 and bufs != [4096]:
+                            continue
+                        if prof == "prod" and L > 10000 and bufs in ([1], [3, 0, 2]) and tier == "quick":
+                            continue
+                        cj.append(dict(L=L, seed=seed() + i, level=lvl, entropy=ent, sched=sched, bufs=bufs))
+                        cj.append(dict(L=L, seed=seed() + i, level=lvl, entropy=ent, sched=sched, bufs=bufs, cut=L // 3 + 1))
+        jp, tp = os.path.join(wdc, f"jobs-{prof}.jsonl"), os.path.join(wdc, f"trace-{prof}.ndjson")
+        write_jsonl(jp, cj)
+        pr = mbt(prof, "compfs", jp, tp, timeout=3000)
+        summ = _json.loads(pr.stdout.strip().splitlines()[-1])
+        acc, tinfo, tres = validate_trace("TraceCompFailSafe", "TraceCompFailSafe.cfg", tp, f"c05-cfs-{prof}", timeout=3000, heap="8g")
+        if not tinfo or tinfo.get("matched") != tinfo.get("len"):
+            raise ToolError(f"TraceCompFailSafe did not consume {tp}: {tres.error_text[:500]}")
+        ev["decoder_events"] = ev.get("decoder_events", 0) + tinfo["len"]
+        ev["decoder_runs"] = ev.get("decoder_runs", 0) + summ["runs"]
+        for b in tinfo.get("bad", []):
+            for c in sorted(b["clauses"]):
+                v.violation(dict(check="compfs-trace", clause=c, profile=prof), dict(engine="compfs", trace=tp, line=b["line"], event=b["ev"]))
+        # property level on the same runs: an uncut stream is delivered completely, whatever the source and buffers
+        for ln in open(tp):
+            if '"summary"' in ln:
+                e = _json.loads(ln)
+                if not e["prefix"] or (not e["cut"] and e["delivered"] != e["L"]):
+                    v.violation(dict(check="compfs-trace", clause="CompleteOnIntactStream" if e["prefix"] else "PrefixOfPlain", profile=prof),
+                                dict(engine="compfs", summary=e))
     res, scens = scenarios_from_writer("Writer.scen.cfg", "c05-scen")
     res2, scens2 = scenarios_from_writer("Writer.many.cfg", "c05-many")
     chosen = pick(scens, 16 if tier == "quick" else 150, seed() + 5) + pick(scens2, 4 if tier == "quick" else 30, seed())
@@ -30,7 +67,8 @@ def main(tier):
     validate_repair_traces(v, "C05", traces, ev, CLAUSES)
     cov = dict(states=sum(t["distinct"] for t in ev["tlc"]) + res.distinct + ev.get("trace_states", 0),
                transitions=sum(t["generated"] for t in ev["tlc"]) + res.generated,
-               traces_validated_against_impl=ev.get("traces", 0), repairs_validated=ev.get("repairs", 0),
+               traces_validated_against_impl=ev.get("traces", 0) + ev.get("decoder_runs", 0), repairs_validated=ev.get("repairs", 0),
+               decoder_events_validated=ev.get("decoder_events", 0),
                archives=ev.get("scenarios", 0), tlc_runs=ev["tlc"],
                samples=[dict(labels=c["labels"]) for c in chosen[:2]] or ["none"],
                rule="CompFailSafe model checked by TLC (ZeroOnlyAtEnd, CompleteOnIntact, Sound over a nondeterministic "
